@@ -2,7 +2,7 @@ SPECIFICATION Spec
 CONSTANTS
   Kinds = {"str", "arr", "bytes"}
   MaxLit = 2
-  Depth = 3
+  Depth = 2
   Steps = {"cat", "shift"}
   SmallIdx = TRUE
 INVARIANTS TypeOK Laws
